@@ -23,6 +23,7 @@ def run(ctx):
     ctx.not_decided = ["value identity for all signatures and argument types (evaluation semantics)"]
     a_positional(ctx)
     a_reference_match(ctx)
+    a_presence_by_key(ctx)
     b_return_channel(ctx)
     c_context(ctx)
     c_no_module_state(ctx)
@@ -143,6 +144,29 @@ def a_positional(ctx):
     ctx.check("C08.a.binding", SM, "create_flow_instance", "parameters visible as locals", ctxupd, "bound parameters are copied into the instance's own context", line=fn.lineno)
 
 
+def a_presence_by_key(ctx):
+    """Whether the call supplied an argument is a question about the KEYS of the call's argument mapping.  `None` is a value a caller can pass (the result of a flow that
+    returned nothing, an unset variable): deciding presence from `<mapping>.get(<parameter key>)` treats an explicit None as "not given" - the parameter silently gets
+    its default and, for positional arguments, every later positional argument is dropped as well."""
+    sm = ctx.tree.ast(SM)
+    n = 0
+    for name in ("create_flow_instance", "_start_flow", "_get_reference_activated_flow_instance"):
+        fn = find_function(sm, name)
+        if fn is None:
+            raise AnalysisError("%s not found" % name, anchor=SM + "::" + name)
+        maps = [a.arg for a in fn.args.args if "arguments" in a.arg]
+        n += 1
+        gets = [c for c in walk_no_nested(fn) if isinstance(c, ast.Call) and isinstance(c.func, ast.Attribute) and c.func.attr in ("get", "pop", "setdefault")
+                and ((isinstance(c.func.value, ast.Name) and c.func.value.id in maps) or (isinstance(c.func.value, ast.Attribute) and c.func.value.attr == "arguments"
+                                                                                          and src(c.func.value.value) in ("event", "start_event")))
+                and c.args and not isinstance(c.args[0], ast.Constant)]
+        ctx.check("C08.a.presence-by-key", SM, name, "parameter keys of the call are tested with `in`", not gets,
+                  "presence of a named / positional argument is decided by key membership (an explicit None is a value)" if not gets else
+                  "`%s` reads a parameter key with .get(): an argument that was passed as None (e.g. `await report \"a\" $missing \"high\"`) counts as absent - the parameter gets its "
+                  "default and the positional arguments after it are dropped" % first_line(gets[0], 60), line=(gets[0].lineno if gets else fn.lineno))
+    ctx.floor("C08.a.presence-by-key", SM, "functions binding call arguments", n, 3)
+
+
 def a_reference_match(ctx):
     """An `activate`d flow is re-used only when the reference instance was bound to exactly the same parameter values:
     every clause that can set `matched` compares the instance's bound value with what the call would bind."""
@@ -234,6 +258,31 @@ def c_no_module_state(ctx, modules=None, rule="C08.c.no-module-state", why_all=N
                 dn = src(d.func if isinstance(d, ast.Call) else d).split(".")[-1]
                 if dn in ("lru_cache", "cache", "cached", "memoize"):
                     bad.append((fn.lineno, qualname(fn), "@%s" % dn, "memoises results across flow instances"))
+            # a mutable default is ONE object for all calls: if the function writes into the parameter (or hands it on / returns it) values leak between instances
+            a_ = fn.args
+            pos = a_.posonlyargs + a_.args
+            defaults = list(zip(pos[len(pos) - len(a_.defaults):], a_.defaults)) + [(k, d) for k, d in zip(a_.kwonlyargs, a_.kw_defaults) if d is not None]
+            for par, dv in defaults:
+                if isinstance(dv, (ast.Dict, ast.List, ast.Set)) or (isinstance(dv, ast.Call) and src(dv.func) in ("dict", "list", "set")):
+                    rebound_first = False
+                    first = fn.body[1] if fn.body and isinstance(fn.body[0], ast.Expr) and isinstance(fn.body[0].value, ast.Constant) and len(fn.body) > 1 else (fn.body[0] if fn.body else None)
+                    if isinstance(first, ast.Assign) and any(isinstance(t_, ast.Name) and t_.id == par.arg for t_ in first.targets) and \
+                            isinstance(first.value, ast.Call) and src(first.value.func) in ("dict", "list", "set", "copy.copy", "copy.deepcopy") :
+                        rebound_first = True
+                    writes = [x for x in walk_no_nested(fn) if
+                              (isinstance(x, (ast.Assign, ast.AugAssign)) and any(isinstance(t_, ast.Subscript) and isinstance(t_.value, ast.Name) and t_.value.id == par.arg
+                                                                                 for t_ in (x.targets if isinstance(x, ast.Assign) else [x.target])))
+                              or (isinstance(x, ast.Call) and isinstance(x.func, ast.Attribute) and x.func.attr in MUTATORS and isinstance(x.func.value, ast.Name) and x.func.value.id == par.arg)]
+                    # `if not p: p = {}` / `if p is None: p = {}` in front of the first write replaces the shared (empty) default by a fresh object
+                    for g_ in walk_no_nested(fn):
+                        if isinstance(g_, ast.If) and writes and g_.lineno < writes[0].lineno and any(isinstance(x_, ast.Name) and x_.id == par.arg for x_ in ast.walk(g_.test)):
+                            for v_ in (True, False):
+                                if any(isinstance(a2, ast.Assign) and any(isinstance(t_, ast.Name) and t_.id == par.arg for t_ in a2.targets)
+                                       and isinstance(a2.value, (ast.Dict, ast.List, ast.Set, ast.Call)) for a2 in (g_.body if v_ else g_.orelse)):
+                                    rebound_first = True
+                    if writes and not rebound_first:
+                        bad.append((writes[0].lineno, qualname(fn), "%s=%s written by `%s`" % (par.arg, src(dv), first_line(writes[0], 50)),
+                                    "the mutable default of parameter `%s` is written: the same object serves every call that omits the argument" % par.arg))
             for n in walk_no_nested(fn):
                 if isinstance(n, ast.Global):
                     bad.append((n.lineno, qualname(fn), first_line(n), "rebinds module state"))
